@@ -16,7 +16,41 @@
 use std::io::{BufRead, Write};
 use std::panic::{catch_unwind, AssertUnwindSafe};
 
+use std::sync::atomic::{AtomicU64, AtomicU8, Ordering};
+
 use serde_json::{json, Value};
+
+// Watchdog: libyara's regex engine does not poll the scan timeout (`/1_(x{0}b)+\x2e/` on `1_b.` never returns in
+// 4.5.5).  Stage: 0 idle, 1 libyara, 2 boreal.  A case that stays in one stage for more than HANG_SECS is answered
+// with {"hang": "yara"|"boreal"} and the process exits (the driver re-runs the rest of the shard case by case).
+static STAGE: AtomicU8 = AtomicU8::new(0);
+static STAGE_SINCE: AtomicU64 = AtomicU64::new(0);
+const HANG_SECS: u64 = 20;
+
+fn now_secs() -> u64 {
+    std::time::SystemTime::now()
+        .duration_since(std::time::UNIX_EPOCH)
+        .map(|d| d.as_secs())
+        .unwrap_or(0)
+}
+
+fn set_stage(s: u8) {
+    STAGE_SINCE.store(now_secs(), Ordering::SeqCst);
+    STAGE.store(s, Ordering::SeqCst);
+}
+
+fn watchdog() {
+    loop {
+        std::thread::sleep(std::time::Duration::from_millis(500));
+        let st = STAGE.load(Ordering::SeqCst);
+        if st != 0 && now_secs().saturating_sub(STAGE_SINCE.load(Ordering::SeqCst)) > HANG_SECS {
+            let who = if st == 1 { "yara" } else { "boreal" };
+            println!("{}", json!({"hang": who}));
+            let _ = std::io::stdout().flush();
+            std::process::exit(3);
+        }
+    }
+}
 
 fn unhex(s: &str) -> Vec<u8> {
     (0..s.len() / 2)
@@ -181,16 +215,20 @@ fn run(case: &Value) -> Value {
     if let Some(mods) = case["probe"].as_array() {
         return probe(mods);
     }
+    set_stage(1);
     let y = run_yara(case);
+    set_stage(2);
     let b = match catch_unwind(AssertUnwindSafe(|| run_boreal(case))) {
         Ok(v) => v,
         Err(e) => json!({"panic": panic_message(&*e)}),
     };
+    set_stage(0);
     json!({"yara": y, "boreal": b})
 }
 
 fn main() {
     std::panic::set_hook(Box::new(|_| {}));
+    std::thread::spawn(watchdog);
     let stdin = std::io::stdin();
     let stdout = std::io::stdout();
     for line in stdin.lock().lines() {
